@@ -26,7 +26,7 @@ summ=[l for l in chk.splitlines() if l.startswith('SUMMARY')]
 rc=re.search(r'rc=(\d+)\s*$',chk).group(1)
 sigs=sorted(set(re.findall(r'violation signature[= ]+(\S+)',chk)))
 verdict=("./check %s (quick, seed 1): VIOLATION %s"%(id,', '.join(sigs[:6])+(' and %d more'%(len(sigs)-6) if len(sigs)>6 else ''))) if rc=='1' else ("MISSED by ./check %s quick at seed 1 when first run (%s)"%(id,summ[-1] if summ else 'no summary'))
-m={"property":id,"source":"independent sub-agent given only the property text, a hint to avoid the area of the first seeded change, and its own worktree",
+m={"property":id,"source":"independent sub-agent given only the property text, a hint to avoid the areas of the earlier seeded changes, and its own worktree",
    "what_it_breaks":a.get('what_it_breaks'),"needs_to_manifest":a.get('needs_to_manifest'),
    "confirmed":"bin/seed_ingest.sh: demo fails with the change, passes without; existing tests of the touched packages pass with it (root-only failures aside)",
    "detected_by":verdict,"run_as":f"VERIF_REPO={wt} ./check {id}"}
